@@ -140,7 +140,7 @@ def red_case(draw):
     axis = draw(st.sampled_from([None] + list(range(-nd, nd))))
     return {"a": a, "axis": axis, "fn": draw(st.sampled_from(["min", "max", "argmin", "argmax", "sort", "argsort", "ptp", "np.min", "np.max", "np.argmin",
                                                              "np.argmax"])),
-            "keepdims": draw(st.booleans())}
+            "keepdims": draw(st.booleans()), "layout": draw(st.sampled_from(["C", "C", "T", "F", "strided"]))}
 
 
 def run_red(case, stt):
@@ -149,9 +149,20 @@ def run_red(case, stt):
     a = case["a"]
     p = mk_phase(a)
     shape = tuple(a["shape"])
-    ex = np.empty(len(a["count"]), dtype=object)
-    ex[:] = O.phase_fractions(p)
+    lay = case.get("layout", "C")
+    if lay == "T" and len(shape) == 2:
+        p = p.T  # a transposed view: F-contiguous, not C-contiguous
+        shape = shape[::-1]
+    elif lay == "F" and len(shape) == 2:
+        p = p.copy(order="F") if hasattr(p, "copy") else p
+    elif lay == "strided" and shape[-1] >= 2:
+        p = p[..., ::2]
+        shape = p.shape
+    n_el = int(np.prod(shape))
+    ex = np.empty(n_el, dtype=object)
+    ex[:] = O.phase_fractions(np.ascontiguousarray(p) if False else p.copy(order="C"))
     E = ex.reshape(shape)
+    a = dict(a, shape=list(shape), count=[0] * n_el)
     axis, fn = case["axis"], case["fn"]
     kd = case["keepdims"] and fn in ("min", "max", "ptp")
     what = "%s(axis=%s%s)" % (fn, axis, ", keepdims" if kd else "")
@@ -253,6 +264,7 @@ def run_red(case, stt):
     stt.label("axis_none" if axis is None else "axis_given")
     stt.label("ndim_%d" % len(shape))
     stt.label("mode_" + a["mode"])
+    stt.label("layout_" + lay)
 
 
 # ---------------------------------------------------------------------------------------------
@@ -268,8 +280,18 @@ def render_case(draw):
     fr = draw(st.one_of(st.sampled_from(SPECIAL_FRAC + [0.05, 0.95 - 1, 0.9999999999999999 - 1, -1e-17, 1e-17, 2.0**-54, -(2.0**-54), 0.15, 0.25, 0.35,
                                                         0.00049999999, 0.0005, 1e-5, 0.045]),
                         st.floats(-0.5, 0.5), st.floats(-1e-12, 1e-12), st.integers(-500, 500).map(lambda k: k / 1000)))
+    p = draw(st.integers(0, 25))
+    if draw(st.integers(0, 3)) == 0 and p <= 15:
+        # the double next to a decimal rounding tie at p decimals: k*10^-p + 5*10^-(p+1)  (and its neighbours)
+        k = draw(st.integers(0, min(10**p, 40) - 1)) if p else 0
+        tie = (F(k) + F(1, 2)) / 10**p
+        if tie > F(1, 2):
+            tie -= 1
+        fr = float(tie)
+        fr = float(np.nextafter(fr, draw(st.sampled_from([-1.0, 1.0])))) if draw(st.booleans()) else fr
+        fr = min(0.5, max(-0.5, fr))
     return {"count": cnt, "frac": fr, "how": draw(st.sampled_from(["default", "precision", "precision", "format", "str", "array", "alwayssign", "imag"])),
-            "p": draw(st.integers(0, 25)), "w": draw(st.sampled_from(["", "12", "+", "+20", "025"]))}
+            "p": p, "w": draw(st.sampled_from(["", "12", "+", "+20", "025"]))}
 
 
 def parse_decimal(s):
